@@ -2,6 +2,7 @@ import MakoModel.PyExpr.Model
 import MakoModel.PyExpr.LemmasTotal
 import MakoModel.PyExpr.LemmasComplete
 import MakoModel.PyExpr.LemmasWrap
+import MakoModel.PyExpr.LemmasPlace
 import MakoModel.PyExpr.LemmasWs
 import MakoModel.PyExpr.LemmasIdent
 /-!
@@ -163,7 +164,7 @@ example :
 `inSlot` of the child: the printed text of an attribute access, a subscription, a call, a unary/binary operation,
 a conditional expression and a starred element, in terms of the children's texts.  (For the list-valued
 `visit_operand` slots - operands of `and`/`or`, comparators, comprehension iterables and conditions, `**d` entries -
-the same is checked by the correspondence stream `corr.print` only.) -/
+see `print_places_operand_lists`.) -/
 theorem print_places_operands :
     (∀ v a T, hasVisitor .attribute = true → print (.attribute v a) = some T →
       ∃ t, print v = some t ∧ T = inSlot .attrValue v t ++ [.sep ['.'], .leaf a])
@@ -212,6 +213,99 @@ theorem print_places_operands :
   · intro v T hv h
     simp only [print, hv, if_true, bind, Option.bind_eq_some_iff, pure, Option.some.injEq] at h
     obtain ⟨t, ht, rfl⟩ := h; exact ⟨t, ht, by simp [inSlot, operandSlot]⟩
+
+/-- **print_places_operand_lists.** The same for the list-valued `visit_operand` slots (induction over the lists):
+in the printed text `T` of the parent, every operand of `and`/`or`, every comparator that is printed, the iterable
+and every condition of every comprehension clause, and the value of every `**d` entry of a dict display stands as
+`inSlot` of that child - a contiguous part of `T` (`<:+:`). -/
+theorem print_places_operand_lists :
+    (∀ op vs T, hasVisitor .boolOp = true → print (.boolOp op vs) = some T → ∀ v ∈ vs,
+      ∃ t, print v = some t ∧ inSlot (boolSlot op) v t <:+: T)
+    ∧ (∀ l ops cs T, hasVisitor .compare = true → print (.compare l ops cs) = some T →
+        (∃ t, print l = some t ∧ inSlot .cmpLeft l t <:+: T)
+        ∧ ∀ c ∈ cs.take ops.length, ∃ t, print c = some t ∧ inSlot .cmpRight c t <:+: T)
+    ∧ (∀ e gs T, hasVisitor .comprehension = true →
+        (print (.listComp e gs) = some T ∨ print (.setComp e gs) = some T ∨ print (.generatorExp e gs) = some T) →
+        ∀ tg it ifs a, Comp.mk tg it ifs a ∈ gs →
+          (∃ ti, print it = some ti ∧ inSlot .compIter it ti <:+: T)
+          ∧ ∀ c ∈ ifs, ∃ tc, print c = some tc ∧ inSlot .compIf c tc <:+: T)
+    ∧ (∀ k v gs T, hasVisitor .comprehension = true → print (.dictComp k v gs) = some T →
+        ∀ tg it ifs a, Comp.mk tg it ifs a ∈ gs →
+          (∃ ti, print it = some ti ∧ inSlot .compIter it ti <:+: T)
+          ∧ ∀ c ∈ ifs, ∃ tc, print c = some tc ∧ inSlot .compIf c tc <:+: T)
+    ∧ (∀ items T, hasVisitor .dict = true → print (.dict items) = some T → ∀ v, DictItem.mk none v ∈ items →
+        ∃ t, print v = some t ∧ inSlot .dictStar v t <:+: T) := by
+  have hslot : ∀ (c : Expr) (t : Toks), inSlot .compIter c t = wrapOperand c t ∧ inSlot .compIf c t = wrapOperand c t
+      ∧ inSlot .boolAnd c t = wrapOperand c t ∧ inSlot .boolOr c t = wrapOperand c t
+      ∧ inSlot .cmpLeft c t = wrapOperand c t ∧ inSlot .cmpRight c t = wrapOperand c t
+      ∧ inSlot .dictStar c t = wrapOperand c t := by
+    intro c t; simp [inSlot, operandSlot]
+  have hcomp : ∀ (gs : List Comp) (pre tg' post : Toks) (T : Toks), hasVisitor .comprehension = true →
+      printComps gs = some tg' → T = pre ++ tg' ++ post →
+      ∀ tg it ifs a, Comp.mk tg it ifs a ∈ gs →
+        (∃ ti, print it = some ti ∧ inSlot .compIter it ti <:+: T)
+        ∧ ∀ c ∈ ifs, ∃ tc, print c = some tc ∧ inSlot .compIf c tc <:+: T := by
+    intro gs pre tg' post T hv hg hT tg it ifs a hm
+    obtain ⟨⟨ti, hti, hin⟩, h2⟩ := printComps_mem hv gs tg' hg tg it ifs a hm
+    subst hT
+    refine ⟨⟨ti, hti, by rw [(hslot it ti).1]; exact infix_mid _ _ hin⟩, fun c hc => ?_⟩
+    obtain ⟨tc, htc, hin'⟩ := h2 c hc
+    exact ⟨tc, htc, by rw [(hslot c tc).2.1]; exact infix_mid _ _ hin'⟩
+  refine ⟨?_, ?_, ?_, ?_, ?_⟩
+  · intro op vs T hv h v hvs
+    simp only [print, hv, if_true, bind, Option.bind_eq_some_iff, pure] at h
+    obtain ⟨tv, htv, h⟩ := h
+    obtain ⟨t, ht, hmem⟩ := printOps_mem vs tv htv v hvs
+    refine ⟨t, ht, ?_⟩
+    have hs : inSlot (boolSlot op) v t = wrapOperand v t := by
+      cases op <;> simp [boolSlot, inSlot, operandSlot]
+    rw [hs]
+    split at h
+    · simp only [Option.some.injEq] at h; subst h
+      exact infix_mid _ _ (infix_flatten hmem)
+    · simp only [Option.bind_eq_some_iff, Option.some.injEq] at h
+      obtain ⟨s, _, rfl⟩ := h
+      exact infix_mid _ _ (infix_joinWith hmem)
+  · intro l ops cs T hv h
+    simp only [print, hv, if_true, bind, Option.bind_eq_some_iff, pure, Option.some.injEq] at h
+    obtain ⟨tl, hl, tc, hc, rfl⟩ := h
+    refine ⟨⟨tl, hl, ?_⟩, fun c hcm => ?_⟩
+    · rw [(hslot l tl).2.2.2.2.1]
+      exact infix_left _ (infix_left _ (infix_right _ (List.infix_refl _)))
+    · obtain ⟨t, ht, hin⟩ := printCmp_mem ops cs tc hc c hcm
+      refine ⟨t, ht, ?_⟩
+      rw [(hslot c t).2.2.2.2.2.1]
+      exact infix_left _ (infix_right _ hin)
+  · intro e gs T hv h
+    rcases h with h | h | h
+    · simp only [print, bind, Option.bind_eq_some_iff, pure, Option.some.injEq] at h
+      obtain ⟨te, _, tg', hg, rfl⟩ := h
+      split
+      · exact hcomp gs ([.opn ['[']] ++ te) tg' [.cls [']']] _ hv hg (by simp)
+      · exact hcomp gs te tg' [] _ hv hg (by simp)
+    · simp only [print, bind, Option.bind_eq_some_iff, pure, Option.some.injEq] at h
+      obtain ⟨te, _, tg', hg, rfl⟩ := h
+      split
+      · exact hcomp gs ([.opn ['{']] ++ te) tg' [.cls ['}']] _ hv hg (by simp)
+      · exact hcomp gs te tg' [] _ hv hg (by simp)
+    · simp only [print, bind, Option.bind_eq_some_iff, pure, Option.some.injEq] at h
+      obtain ⟨te, _, tg', hg, rfl⟩ := h
+      split
+      · exact hcomp gs ([lpar] ++ te) tg' [rpar] _ hv hg (by simp)
+      · exact hcomp gs te tg' [] _ hv hg (by simp)
+  · intro k v gs T hv h
+    simp only [print, bind, Option.bind_eq_some_iff, pure, Option.some.injEq] at h
+    obtain ⟨tk, _, tv, _, tg', hg, rfl⟩ := h
+    split
+    · exact hcomp gs ([.opn ['{']] ++ tk ++ [.sep [':', ' ']] ++ tv) tg' [.cls ['}']] _ hv hg (by simp)
+    · exact hcomp gs (tk ++ tv) tg' [] _ hv hg (by simp)
+  · intro items T hv h v hm
+    simp only [print, hv, if_true, bind, Option.bind_eq_some_iff, pure, Option.some.injEq] at h
+    obtain ⟨ti, hi, rfl⟩ := h
+    obtain ⟨t, item, ht, hmem, hin⟩ := printDict_mem items ti hi v hm
+    refine ⟨t, ht, ?_⟩
+    rw [(hslot v t).2.2.2.2.2.2]
+    exact infix_mid _ _ (List.IsInfix.trans hin (infix_joinWith hmem))
 
 /-- `(yield a) + d` is re-emitted as `(yield a + d)`: the `yield` is a child in a slot where it needs parentheses,
 its visitor writes none and the slot's `visit_operand` does not know it. -/
@@ -302,6 +396,107 @@ theorem adjust_ws_spec_counterexample :
     ∧ joinLines (Spec.remargin (Spec.multiFlags (splitLines "    x = '\"\"\"'\n    y = 1".toList)) none
         (splitLines "    x = '\"\"\"'\n    y = 1".toList)) = "x = '\"\"\"'\ny = 1".toList
     ∧ Spec.hazardFree (splitLines "    x = '\"\"\"'\n    y = 1".toList) = false := by decide
+
+/-! ## `flush_adjusted_spec` : the printer side (`write_indented_block`, `_flush_adjusted_lines`, `_in_multi_line`) -/
+
+open MakoModel.PyExpr.Ws in
+/- OPEN  flush_adjusted_spec : ∀ ind ls, flushLoop ind (false, false) none ls =
+           Spec.reindent ind (Spec.multiFlags ls) none ls
+   false today: on top of what derails `adjust_whitespace` (`Spec.lineHazard`), `_in_multi_line` counts triple quotes
+   with `re.findall` over the whole line - a comment containing three quote characters, or a triple-quoted literal
+   containing the other kind of triple quote, flips or fails to flip its state (`Spec.scanHazardP`). -/
+
+open MakoModel.PyExpr.Ws in
+/-- **flush_adjusted_spec_partial.** For every block of lines (any number, any content) that is hazard-free for
+`adjust_whitespace` (`Spec.hazardFree`) and free of the two printer-specific hazards (`Spec.printerHazardFree`), and for
+ANY target indentation `ind`, `_flush_adjusted_lines` writes exactly `Spec.reindent` driven by the independent lexical
+specification `Spec.multiFlags`: lines inside a literal / after a continuation untouched, every other line
+tab-expanded with the block's margin replaced by `ind`.  What `Spec.reindent` guarantees is stated by the next three
+theorems. -/
+theorem flush_adjusted_spec_partial (ind : Ws.Line) (ls : List Ws.Line) (hz : Spec.hazardFree ls = true)
+    (hzp : Spec.printerHazardFree ls = true) :
+    flushLoop ind (false, false) none ls = Spec.reindent ind (Spec.multiFlags ls) none ls :=
+  flush_agree ind ls .code .init (false, false) none rel_init prel_init hz hzp
+
+open MakoModel.PyExpr.Ws in
+/-- the same for the printer's entry point: `write_indented_block(block)` + `_flush_adjusted_lines()` at indentation
+level `n` (four blanks per level) -/
+theorem flush_adjusted_block_spec_partial (n : Nat) (block : List Char)
+    (hz : Spec.hazardFree (splitLines block) = true) (hzp : Spec.printerHazardFree (splitLines block) = true) :
+    flushAdjusted n block
+      = Spec.reindent (List.replicate (4 * n) ' ') (Spec.multiFlags (splitLines block)) none (splitLines block) :=
+  flush_adjusted_spec_partial _ _ hz hzp
+
+open MakoModel.PyExpr.Ws in
+/-- both guards are satisfiable by a block with a multi-line literal, quotes of the other kind, a `#` inside the
+literal, a comment and a backslash continuation -/
+example : Spec.hazardFree (splitLines
+      "x = \"\"\"a # 'b'\n  kept \"as is\"\n\"\"\" + 'it'  # note\ny = 1 + \\\n  2\nif x:\n    z = y".toList) = true
+    ∧ Spec.printerHazardFree (splitLines
+      "x = \"\"\"a # 'b'\n  kept \"as is\"\n\"\"\" + 'it'  # note\ny = 1 + \\\n  2\nif x:\n    z = y".toList) = true := by
+  decide
+
+open MakoModel.PyExpr.Ws in
+/-- **number of lines preserved** (any indentation, any flags) -/
+theorem flush_lines_preserved (ind : Ws.Line) (fl : List Bool) (m : Option Ws.Line) (ls : List Ws.Line) :
+    (Spec.reindent ind fl m ls).length = ls.length :=
+  reindent_length ind fl m ls
+
+open MakoModel.PyExpr.Ws in
+/-- **lines inside a literal / after a continuation are written untouched** -/
+theorem flush_inside_untouched (ind : Ws.Line) (fl : List Bool) (m : Option Ws.Line) (ls : List Ws.Line) (i : Nat)
+    (h : fl[i]? = some true) : (Spec.reindent ind fl m ls)[i]? = ls[i]? :=
+  reindent_inside ind fl m ls i h
+
+open MakoModel.PyExpr.Ws in
+/-- **exactly the margin is replaced by the target indentation on every other line** that starts with it -/
+theorem flush_margin_replaced (ind : Ws.Line) (fl : List Bool) (M : Ws.Line) (ls : List Ws.Line) (i : Nat)
+    (l : Ws.Line) (hf : fl[i]? = some false) (hl : ls[i]? = some l) (hm : M.isPrefixOf (expandTabs 0 l) = true) :
+    (Spec.reindent ind fl (some M) ls)[i]? = some (ind ++ (expandTabs 0 l).drop M.length) := by
+  rw [reindent_outside ind fl M ls i l hf hl, pIndentLine_replace M ind _ hm]
+
+open MakoModel.PyExpr.Ws in
+/-- `x = 1  # '''` followed by `y = 2`, written at indentation level 1: the comment's three quote characters flip
+`_in_multi_line`, the second line is taken for string content and is written without indentation (the generated
+module does not compile); the specification indents both lines. -/
+theorem flush_adjusted_spec_counterexample :
+    flushAdjusted 1 "x = 1  # '''\ny = 2".toList = ["    x = 1  # '''".toList, "y = 2".toList]
+    ∧ Spec.reindent "    ".toList (Spec.multiFlags (splitLines "x = 1  # '''\ny = 2".toList)) none
+        (splitLines "x = 1  # '''\ny = 2".toList) = ["    x = 1  # '''".toList, "    y = 2".toList]
+    ∧ Spec.hazardFree (splitLines "x = 1  # '''\ny = 2".toList) = true
+    ∧ Spec.printerHazardFree (splitLines "x = 1  # '''\ny = 2".toList) = false := by decide
+
+open MakoModel.PyExpr.Ws in
+/-- **remargin_roundtrip.** The two passes composed - what `<% %>` code goes through from the template to the
+generated module: for every tab-free block that is hazard-free for both passes, `adjust_whitespace` followed by
+`_flush_adjusted_lines` at any target indentation `ind` is `Spec.roundtrip`: the identity on lines inside a literal /
+after a continuation (`remargin_roundtrip_inside`), "strip the block's margin, put `ind` in front" on every other
+line from the first code line on (`remargin_roundtrip_code`), the identity on blank/comment lines before it. -/
+theorem remargin_roundtrip (ind : Ws.Line) (ls : List Ws.Line) (hnt : ∀ l ∈ ls, NoTabs l)
+    (hz : Spec.hazardFree ls = true) (hzp : Spec.printerHazardFree ls = true) :
+    flushLoop ind (false, false) none (adjustLoop .init none ls)
+      = Spec.roundtrip ind (Spec.multiFlags ls) none ls :=
+  roundtrip_agree ind ls hnt hz hzp
+
+open MakoModel.PyExpr.Ws in
+theorem remargin_roundtrip_inside (ind : Ws.Line) (fl : List Bool) (m : Option Ws.Line) (ls : List Ws.Line)
+    (i : Nat) (h : fl[i]? = some true) : (Spec.roundtrip ind fl m ls)[i]? = ls[i]? :=
+  roundtrip_inside ind fl m ls i h
+
+open MakoModel.PyExpr.Ws in
+theorem remargin_roundtrip_code (ind : Ws.Line) (fl : List Bool) (M : Ws.Line) (ls : List Ws.Line) (i : Nat)
+    (l : Ws.Line) (hf : fl[i]? = some false) (hl : ls[i]? = some l) (hm : M.isPrefixOf l = true) :
+    (Spec.roundtrip ind fl (some M) ls)[i]? = some (ind ++ l.drop M.length) := by
+  rw [roundtrip_outside ind fl M ls i l hf hl, replaceMargin_drop M l hm]
+
+open MakoModel.PyExpr.Ws in
+/-- non-trivial instance: a block at margin 4 with a multi-line literal, through both passes to indentation 8 -/
+example :
+    let ls := splitLines "    x = '''a\n  b'''\n    if x:\n        y = 1".toList
+    (∀ l ∈ ls, NoTabs l) ∧ Spec.hazardFree ls = true ∧ Spec.printerHazardFree ls = true
+    ∧ flushLoop "        ".toList (false, false) none (adjustLoop .init none ls)
+        = ["        x = '''a".toList, "  b'''".toList, "        if x:".toList, "            y = 1".toList] := by
+  decide
 
 /-! ## `identifiers_exact` : what is fetched from the template's namespace -/
 
